@@ -12,33 +12,33 @@ Record case := {
   c_final : list (name * bool);
   c_sur_failed : bool }.              (* len(surroundingScope.Errors()) != 0 after everything finished *)
 
-Definition tx := (tpc * bool * option bool * list (name * ctxid) * list name)%type.
+Definition tx := (tpc * bool * option bool * list (name * ctxid) * list name * bool)%type.
 
-Definition of_t (t : tstate) : state * tx := (rs t, (pc t, hold t, catched t, subd t, coll t)).
+Definition of_t (t : tstate) : state * tx := (rs t, (pc t, hold t, catched t, subd t, coll t, pend t)).
 Definition to_t (s : state) (x : tx) : tstate :=
-  match x with (p, h, c, l, g) => mk s p h c l g end.
-Definition tx_pc (x : tx) : tpc := match x with (p, _, _, _, _) => p end.
+  match x with (p, h, c, l, g, pd) => mk s p h c l g pd end.
+Definition tx_pc (x : tx) : tpc := match x with (p, _, _, _, _, _) => p end.
 
 Definition try_extra (tb : tryblock) (s : state) (x : tx) : option (state * tx) :=
   match tx_pc x with
   | TStart => None                     (* started only by the TExt event *)
-  | _ => match try_step false tb (to_t s x) with Some t => Some (of_t t) | None => None end
+  | _ => match try_step MFixed tb (to_t s x) with Some t => Some (of_t t) | None => None end
   end.
 
 Definition try_start (tb : tryblock) (s : state) (x : tx) : option (state * tx) :=
   match tx_pc x with
-  | TStart => match try_step false tb (to_t s x) with Some t => Some (of_t t) | None => None end
+  | TStart => match try_step MFixed tb (to_t s x) with Some t => Some (of_t t) | None => None end
   | _ => None
   end.
 
 Definition check (c : case) : bool :=
   let tb := c_tb c in
   match replay tx (try_extra tb) (try_start tb) (c_trace c)
-               {| a_s := init (tb_par tb); a_x := (TStart, false, None, [], []); a_ended := []; a_sres := [] |} with
+               {| a_s := init (tb_par tb); a_x := (TStart, false, None, [], [], false); a_ended := []; a_sres := [] |} with
   | Some a =>
     let s := a_s a in
     final_ok s (c_final c)
     && Bool.eqb (ctx_failed (tb_par tb) s) (c_sur_failed c)
-    && match a_x a with (TDone, false, _, _, _) => true | _ => false end
+    && match a_x a with (TDone, false, _, _, _, _) => true | _ => false end
   | None => false
   end.
